@@ -176,6 +176,58 @@ def h_binary(ctx, op, ka, ua, kb, ub, shape="same", n=2):
 
 def h_helper(ctx, helper, unit="GB", n=3, unit2=None, shape="same"):
     lab = f"{helper}[{unit}{'/' + unit2 if unit2 else ''},{shape}]"
+    if helper.startswith("after_to:"):
+        # the same contracts on a series that was read, then converted in place to another unit of its dimension
+        sub = helper.split(":", 1)[1]
+        h = mk(ctx, "hourly", "h", unit, n)
+        str(h.unit), str(h)                      # a read before the conversion
+        _ = h + h
+        before = pv(h)
+        h.to(u(unit2))
+        after = pv(h)
+        for k in before[1]:
+            ctx.eq(after[1][k], before[1][k], f"{lab}: conversion keeps the physical value")
+        cells = [after[1][k] for k in sorted(after[1])]
+        ks = sorted(after[1])
+        if sub == "sum":
+            ctx.eq(pv(h.sum())[1][None], sum(cells), f"{lab}: sum")
+        elif sub == "max":
+            m = pv(h.max())[1][None]
+            for c in cells:
+                ctx.le(c, m, f"{lab}: max >= every cell")
+        elif sub in ("abs", "neg", "copy"):
+            r = pv({"abs": h.abs, "neg": lambda: -h, "copy": h.copy}[sub]())
+            for k in ks:
+                e = after[1][k] if sub == "copy" else (-after[1][k] if sub == "neg" else ite(after[1][k] >= 0, after[1][k], -after[1][k]))
+                ctx.eq(r[1][k], e, f"{lab}: physical value of the result")
+            ctx.require(r[0] == after[0], f"{lab}: dimension")
+        elif sub in ("ceil", "round"):
+            raw0 = list(h.value["value"].values._data)
+            r = h.ceil() if sub == "ceil" else round(h, 2)
+            R = pv(r)
+            f = V.base_factor(r.unit)[0]
+            for k, x in zip(ks, raw0):
+                if sub == "ceil":
+                    ctx.le(after[1][k], R[1][k], f"{lab}: x <= ceil x (physically)")
+                    ctx.lt(R[1][k], after[1][k] + f, f"{lab}: ceil x < x + 1 unit (physically)")
+                else:
+                    ctx.le(R[1][k] - after[1][k], 0.005 * f, f"{lab}: round(x,2) - x <= 0.005 unit (physically)")
+                    ctx.le(after[1][k] - R[1][k], 0.005 * f, f"{lab}: x - round(x,2) <= 0.005 unit (physically)")
+        elif sub == "shift":
+            r = pv(h.return_shifted_hourly_quantities(ExplainableQuantity(1 * u.hour, "shift")))
+            for k in ks:
+                ctx.eq(r[1].get(k + HOUR, 0), after[1][k], f"{lab}: shifted values keep their physical value")
+        elif sub == "add_self":
+            r = pv(h + (-h))
+            for k in ks:
+                ctx.eq(r[1][k], 0, f"{lab}: a + (-a) = 0")
+        elif sub == "mul_scalar":
+            q = mk(ctx, "scalar", "q", "percent")
+            r = pv(h * q)
+            Q = pv(q)
+            for k in ks:
+                ctx.eq(r[1][k], after[1][k] * Q[1][None], f"{lab}: product with a percent scalar")
+        return
     if helper in ("compare_max",):
         a, b = mk(ctx, "scalar", "a", unit), mk(ctx, "scalar", "b", unit2 or unit)
         r = a.compare_with_and_return_max(b)
@@ -291,7 +343,7 @@ def plan(tier, seed):
     rnd = random.Random(seed)
     p = []
     pairs_quick = [("GB", "MB"), ("hour", "min"), ("dimensionless", "percent")]
-    pairs = COMPAT if tier == "thorough" else pairs_quick
+    pairs = COMPAT
     for op in ("+", "-", "*", "/"):
         for ka, kb in itertools.product(KINDS, KINDS):
             for ua, ub in pairs:
@@ -309,17 +361,13 @@ def plan(tier, seed):
     for hp in ("sum", "max", "abs", "neg", "ceil", "round", "copy", "shift"):
         p.append(("helper", dict(helper=hp, unit="GB")))
         p.append(("helper", dict(helper=hp, unit="dimensionless", n=2)))
+    for hp in ("sum", "max", "abs", "neg", "ceil", "round", "copy", "shift", "add_self", "mul_scalar"):
+        for un, un2 in (("kW", "W"), ("GB", "MB"), ("hour", "min")):
+            p.append(("helper", dict(helper="after_to:" + hp, unit=un, unit2=un2, n=2)))
     p += [("helper", dict(helper="to", unit="GB", unit2="MB")), ("helper", dict(helper="to", unit="hour", unit2="s")),
           ("helper", dict(helper="compare_max", unit="GB", unit2="MB")), ("helper", dict(helper="compare_max", unit="W", unit2="W"))]
     for hp in ("ew_max", "ew_min"):
         for sh in ("same", "shifted", "longer"):
             p.append(("helper", dict(helper=hp, unit="GB", unit2="GB", shape=sh, n=2)))
         p.append(("helper", dict(helper=hp, unit="GB", unit2="MB", shape="same", n=2)))
-    if tier == "quick":
-        # keep every helper and a seeded two thirds of the binary instances
-        binaries = [x for x in p if x[0] == "binary"]
-        rest = [x for x in p if x[0] != "binary"]
-        rnd.shuffle(binaries)
-        keep = [x for x in binaries if x[1]["shape"] != "same" or x[1]["ua"] != x[1]["ub"]][:140]
-        p = rest + keep
     return p
